@@ -18,8 +18,8 @@ import shutil
 RULE = (
     "each run draws (from one tape) a world of mutually consistent pipeline objects (baits with "
     "accession-list labels incl. length ties, access, target/antitarget coverages, reference, .cnr, "
-    ".cns, a VariantArray, shared filter/stat/ignore lists, combine dicts, chrom-size dict) and a history "
-    "of 1-4 operations from "
+    ".cns, a VariantArray, sibling objects of every kind, shared filter/stat/ignore/threshold sequences, "
+    "combine dicts, chrom-size dict) and a history of 1-6 operations (the quantifier's 4 and supersets) from "
     "{target, antitarget, fix, segment(each method; processes in 1,2,3,16 under SimPool), segmetrics, "
     "call(each method, shared filter lists), genemetrics, breaks, bintest, metrics, export bed/vcf/seg/"
     "theta, center_all on a copy, merge/flatten/subtract/intersection/subdivide/resize_ranges, by_arm/"
@@ -149,7 +149,7 @@ def build_world(tape, tier):
                        ("acov_b", "acov"), ("tcov_null", "tcov"), ("access_unsorted", "access"),
                        ("regions_nested", "access"),
                        ("cnr_mirror", "cnr"), ("cnr_chr1", "cnr"), ("cnr_ontarget", "cnr"),
-                       ("cnr_relabelled", "cnr"), ("cns_relabelled", "cns"),
+                       ("cnr_relabelled", "cnr"), ("cns_relabelled", "cns"), ("cns_stats_alt", "cns"),
                        ("varr_empty", "varr"),
                        ("varr_nozyg", "varr"),
                        ("baits_chr1", "baits")):
@@ -329,10 +329,10 @@ def run_call(o, p, procs):
 def ch_genemetrics(W, t, info):
     c = W.pick(t, "cnr", label="gm.cnr")
     ents = [c]
-    p = {"segments": t.chance(1, 2, "gm.segs"), "threshold": t.choice([0.2, 0.05, 0.5], "gm.thr"),
+    p = {"segments": t.chance(2, 3, "gm.segs"), "threshold": t.choice([0.2, 0.05, 0.5], "gm.thr"),
          "min_probes": t.choice([3, 1], "gm.minp"), "skip_low": t.chance(1, 2, "gm.low"),
          "hapx": t.chance(1, 2, "gm.hapx"),
-         "female": t.choice([None, True, False], "gm.female"),
+         "female": t.choice([None, None, True, False], "gm.female"),
          "parx": t.choice([None, None, "grch38"], "gm.parx")}
     if p["segments"]:
         ents.append(W.pick(t, "cns", label="gm.cns"))
